@@ -51,6 +51,9 @@ def gen(rng, tier, idx):
             skews[h] = 0
     else:
         keep = nhosts
+    # host names where one is a proper prefix of another (node1 / node10), in a shuffled assignment
+    hostnames = r.sample(["h1", "h10", "h100", "h2", "h12", "nodeA", "nodeAB"], nhosts) if r.chance(40) else ["h%d" % i for i in range(nhosts)]
+    with_ranks = r.chance(35)
     looms = []
     tid = 100
     pid = 10
@@ -68,7 +71,7 @@ def gen(rng, tier, idx):
         r.shuffle(pool_p)
     for i in range(nlooms):
         host = i % nhosts
-        name = "h%d.%s" % (host, "abcdefgh"[i]) if r.chance(70) or nlooms > nhosts else "h%d" % host
+        name = "%s.%s" % (hostnames[host], "abcdefgh"[i]) if r.chance(70) or nlooms > nhosts else hostnames[host]
         procs = []
         used_p = set()
         for _ in range(r.randint(1, 3)):
@@ -93,6 +96,27 @@ def gen(rng, tier, idx):
                     ths.append(t_)
             procs.append({"pid": thispid, "threads": ths})
         looms.append({"name": name, "host": host, "procs": procs})
+    if with_ranks:
+        # rank information on every process, placed round-robin or at random over the looms:
+        # looms are then ordered by their minimum rank, not by name
+        allp = [p for l in looms for p in l["procs"]]
+        order = list(range(len(allp)))
+        if r.chance(50):
+            r.shuffle(order)
+        else:
+            # round-robin over looms
+            byloom = [[p for p in l["procs"]] for l in looms]
+            rr = []
+            k = 0
+            while any(byloom):
+                if byloom[k % len(byloom)]:
+                    rr.append(byloom[k % len(byloom)].pop(0))
+                k += 1
+            pos = {id(p): i for i, p in enumerate(allp)}
+            order = [pos[id(p)] for p in rr]
+        for rank, i in enumerate(order):
+            allp[i]["rank"] = rank
+            allp[i]["nranks"] = len(allp)
     nthreads = sum(len(p["threads"]) for l in looms for p in l["procs"])
     mode = r.weighted([("emu", 60), ("dump", 40)])
     rs = rng.derive("schedule")
@@ -114,7 +138,7 @@ def gen(rng, tier, idx):
         ro.shuffle(o)
         orders.append(o)
     return {"looms": looms, "skews": skews, "table": table_mode, "keep": keep, "mode": mode, "sched": sched, "orders": orders,
-            "tie": tie}
+            "tie": tie, "hostnames": hostnames}
 
 
 def build(case):
@@ -127,7 +151,7 @@ def build(case):
     skews = case["skews"]
     streams = []
     for (l, p, t) in threads:
-        meta = tf.base_meta(l["name"], p["pid"], t, app_id=1, cpus=[(0, 0)],
+        meta = tf.base_meta(l["name"], p["pid"], t, app_id=1, cpus=[(0, 0)], rank=p.get("rank"), nranks=p.get("nranks"),
                             extra={"ovni": {"mark": {"7": {"title": "seq", "chan_type": "single"}}}})
         s = tf.Stream(l["name"], p["pid"], t, meta)
         streams.append(s)
@@ -177,7 +201,7 @@ def build(case):
         for h in hosts:
             if h >= case["keep"]:
                 continue
-            lines.append("%-10d %-20s %-20d %-19.3f %.3f\n" % (n, "h%d" % h, -skews[h], float(-skews[h]), 1.5))
+            lines.append("%-10d %-20s %-20d %-19.3f %.3f\n" % (n, case.get("hostnames", ["h%d" % i for i in range(8)])[h], -skews[h], float(-skews[h]), 1.5))
             n += 1
         table = "".join(lines).encode()
     return threads, streams, recs, table, g
